@@ -371,6 +371,9 @@ def _model_group(ctx, spec, g, path, ct, reqs, pending, case):
     want, want_dt = _expected_arrays(spec)
     gd_tok = [[_tok(row) for row in a] for a in want]
     if path == 'fresh':
+        margs = _model_args(spec['gtype'], spec['coords'], [m['values'] for m in spec['meas']])
+        reqs.append(('construct', margs))
+        pending.append((dict(case, what='construct'), ('ok', None)))
         # L1: the attributes written by the constructor are the model's encoding of the input
         reqs.append(('encode', {'gtype': spec['gtype'], 'gd': gd_tok, 'double': want_dt is np.float64}))
         st, sv = _try(_stored_view, g)
@@ -594,6 +597,16 @@ def _object(ctx, idx, reqs, pending, stream='obj'):
 
 
 # ------------------------------------------------------------------ malformed input
+
+def _model_args(gtype, gd, meas_values=()):
+    """arguments of the model's `construct` for a list of 2-D arrays (None if not representable)."""
+    if any(np.asarray(a).ndim != 2 for a in gd):
+        return None
+    kinds = {np.asarray(a).dtype.kind for a in gd} or {'f'}
+    dbl = (not kinds <= {'i', 'u'}) and (np.result_type(*[np.asarray(a).dtype for a in gd]) == np.float64 if gd else False)
+    return {'gtype': gtype, 'double': bool(dbl), 'gd': [[_tok(row) for row in np.asarray(a)] for a in gd],
+            'meas': [[None if np.isnan(x) else t for x, t in zip(np.asarray(v, np.float32), _tok(np.asarray(v, np.float32)))] for v in meas_values]}
+
 def _malformed_cases(ctx, idx):
     """(descr, builder) where builder() must raise."""
     r = ctx.rng('bad', idx)
@@ -621,7 +634,7 @@ def _malformed_cases(ctx, idx):
         gd = [a.copy() for a in s['coords']]
         gd[j][-1] = gd[j][0]
         d.update(gtype='POLYGON', n=len(cnt), which=j)
-        return d, lambda: _build_group(s, graphic_data=gd)
+        return d, lambda: _build_group(s, graphic_data=gd), _model_args('POLYGON', gd)
     if kind == 'point-count':
         gt = r.choice(GTYPES)
         bad = {'POINT': [0, 2, 3], 'POLYLINE': [0, 1], 'POLYGON': [0, 1, 2], 'ELLIPSE': [0, 1, 2, 3, 5, 8], 'RECTANGLE': [0, 1, 2, 3, 5, 8]}[gt]
@@ -632,7 +645,7 @@ def _malformed_cases(ctx, idx):
         gd[j] = np.arange(c * dim, dtype=np.float32).reshape(c, dim) + 0.5
         s['meas'] = []
         d.update(gtype=gt, n=len(cnt), which=j, count=c)
-        return d, lambda: _build_group(s, graphic_data=gd, graphic_type=gt)
+        return d, lambda: _build_group(s, graphic_data=gd, graphic_type=gt), _model_args(gt, gd)
     if kind == 'non-finite':
         gd = [a.astype(np.float64 if r.random() < 0.5 else np.float32) for a in coords_copy()]
         j = r.randrange(n)
@@ -640,34 +653,35 @@ def _malformed_cases(ctx, idx):
         gd[j][r.randrange(gd[j].shape[0]), r.randrange(dim)] = bad
         s['meas'] = []
         d.update(which=j, value=str(bad))
-        return d, lambda: _build_group(s, graphic_data=gd)
+        return d, lambda: _build_group(s, graphic_data=gd), _model_args(s['gtype'], gd)
     if kind == 'meas-more':
         extra = r.choice([1, 2, n])
-        return dict(d, values=n + extra), lambda: _build_group(s, measurements=meas(np.arange(n + extra) + 1.0))
+        return dict(d, values=n + extra), lambda: _build_group(s, measurements=meas(np.arange(n + extra) + 1.0)), \
+            _model_args(s['gtype'], s['coords'], [np.arange(n + extra) + 1.0])
     if kind == 'meas-fewer':
         if n == 1:
-            return dict(d, values=0), lambda: _build_group(s, measurements=meas(np.zeros(0)))
+            return dict(d, values=0), lambda: _build_group(s, measurements=meas(np.zeros(0))), _model_args(s['gtype'], s['coords'], [np.zeros(0)])
         k = r.randrange(0, n) if n > 2 else 0
         if k == 1:
             k = 0 if n == 2 else 2
-        return dict(d, values=k), lambda: _build_group(s, measurements=meas(np.arange(k) + 1.0))
+        return dict(d, values=k), lambda: _build_group(s, measurements=meas(np.arange(k) + 1.0)), _model_args(s['gtype'], s['coords'], [np.arange(k) + 1.0])
     if kind == 'meas-single':
         if n == 1:
             n2 = 3
             cnt = [MIN_PTS[s['gtype']]] * n2
             gd, _ = _gen_coords(r, ctx.np_rng('bad', idx), s['gtype'], cnt, dim, 'vary' if dim == 3 else '-', 'f4')
-            return dict(d, n=n2, values=1), lambda: _build_group(s, graphic_data=gd, measurements=meas([5.0]))
-        return dict(d, values=1), lambda: _build_group(s, measurements=meas([5.0]))
+            return dict(d, n=n2, values=1), lambda: _build_group(s, graphic_data=gd, measurements=meas([5.0])), _model_args(s['gtype'], gd, [[5.0]])
+        return dict(d, values=1), lambda: _build_group(s, measurements=meas([5.0])), _model_args(s['gtype'], s['coords'], [[5.0]])
     if kind == 'meas-nan-padded':
         v = np.full(n + r.choice([1, 3]), np.nan)
         v[:max(1, n // 2)] = 1.5
-        return dict(d, values=len(v), nan=True), lambda: _build_group(s, measurements=meas(v))
+        return dict(d, values=len(v), nan=True), lambda: _build_group(s, measurements=meas(v)), _model_args(s['gtype'], s['coords'], [v])
     if kind == 'meas-nan-short':
         if n == 1:
-            return dict(d, values=0), lambda: _build_group(s, measurements=meas(np.zeros(0)))
+            return dict(d, values=0), lambda: _build_group(s, measurements=meas(np.zeros(0))), _model_args(s['gtype'], s['coords'], [np.zeros(0)])
         v = np.full(n - 1, np.nan)
         v[0] = 2.5
-        return dict(d, values=len(v), nan=True), lambda: _build_group(s, measurements=meas(v))
+        return dict(d, values=len(v), nan=True), lambda: _build_group(s, measurements=meas(v)), _model_args(s['gtype'], s['coords'], [v])
     if kind == 'mixed-dims':
         gd = coords_copy()
         if len(gd) == 1:
@@ -676,39 +690,47 @@ def _malformed_cases(ctx, idx):
         other = 5 - dim
         gd[j] = np.ones((gd[j].shape[0], other), np.float32) * np.arange(1, gd[j].shape[0] + 1)[:, None]
         s['meas'] = []
-        return d, lambda: _build_group(s, graphic_data=gd)
+        return d, lambda: _build_group(s, graphic_data=gd), _model_args(s['gtype'], gd)
     if kind == 'wrong-columns':
         c = r.choice([1, 4])
         gd = [np.arange(a.shape[0] * c, dtype=np.float32).reshape(a.shape[0], c) + 0.25 for a in s['coords']]
         s['meas'] = []
-        return dict(d, columns=c), lambda: _build_group(s, graphic_data=gd)
+        return dict(d, columns=c), lambda: _build_group(s, graphic_data=gd), _model_args(s['gtype'], gd)
     if kind == 'one-dimensional':
         gd = [a.reshape(-1).astype(np.float32) for a in s['coords']]
         s['meas'] = []
-        return d, lambda: _build_group(s, graphic_data=gd)
+        return d, lambda: _build_group(s, graphic_data=gd), None
     if kind == 'number':
         k = r.choice([0, -1, -5])
-        return dict(d, number=k), lambda: _build_group(s, number=k)
+        return dict(d, number=k), lambda: _build_group(s, number=k), None
     if kind == 'empty':
         s['meas'] = []
-        return d, lambda: _build_group(s, graphic_data=[])
+        return d, lambda: _build_group(s, graphic_data=[]), _model_args(s['gtype'], [])
     if kind == 'unknown-type':
         s['meas'] = []
-        return d, lambda: _build_group(s, graphic_type=r.choice(['CIRCLE', 'MULTIPOINT', 'polygon', '']))
+        bad_type = r.choice(['CIRCLE', 'MULTIPOINT', 'polygon', ''])
+        return d, lambda: _build_group(s, graphic_type=bad_type), _model_args(bad_type, s['coords'])
     if kind == 'sop-numbering':
         s2 = _gen_group(ctx, 'bad2', idx, 2, dim)
         order = r.choice([(2, 1), (1, 3), (2, 3), (1, 1)])
-        return dict(d, numbers=list(order)), lambda: _build_sop([_build_group(s, number=order[0]), _build_group(s2, number=order[1])], '2D' if dim == 2 else '3D')
+        return dict(d, numbers=list(order)), lambda: _build_sop([_build_group(s, number=order[0]), _build_group(s2, number=order[1])], '2D' if dim == 2 else '3D'), \
+            ('sopNumbers', {'numbers': list(order)})
     if kind == 'meas-wrong-type':
         from pydicom.dataset import Dataset
-        return d, lambda: _build_group(s, measurements=[Dataset()])
+        return d, lambda: _build_group(s, measurements=[Dataset()]), None
     raise AssertionError(kind)
 
 
 def _malformed(ctx, idx, reqs, pending):
-    d, build = _malformed_cases(ctx, idx)
+    d, build, margs = _malformed_cases(ctx, idx)
     case = {'what': 'malformed', 'idx': idx, 'descr': d}
     st, res = _try(build)
+    if isinstance(margs, tuple):
+        reqs.append(margs)
+        pending.append((dict(case, what='sopNumbers'), ('ok', st == 'ok')))
+    elif margs is not None:
+        reqs.append(('construct', margs))
+        pending.append((dict(case, what='construct'), ('ok', None) if st == 'ok' else ('err', _kind(res))))
     ctx.case(sample=case if idx % 16 == 0 and idx < 64 else None, malformed=d['kind'], malformed_outcome=(st if st == 'ok' else res),
              nontrivial_key=('bad', d['kind'], d['gtype'], d['dim'], min(d.get('n', 0), 6)))
     if st == 'ok':
@@ -734,6 +756,8 @@ def _compare(ctx, pending, answers):
             dis('ok-vs-error', model)
         elif impl[0] == 'ok':
             a, b = impl[1], model[1]
+            if what == 'construct':
+                continue
             if what == 'encode':
                 a = {k: a[k] for k in ('coords', 'double', 'commonZ', 'indexList', 'numAnn')}
                 if impl[1].get('both'):
@@ -748,9 +772,9 @@ def _compare(ctx, pending, answers):
 def run(ctx):
     import hd_env  # noqa: F401
     reqs, pending = [], []
-    for idx in range(ctx.n(60, 900)):
+    for idx in range(ctx.n(150, 2000)):
         _object(ctx, idx, reqs, pending)
-    for idx in range(ctx.n(160, 1600)):
+    for idx in range(ctx.n(320, 3200)):
         _malformed(ctx, idx, reqs, pending)
     answers = ctx.model(reqs)
     if answers is None:
